@@ -99,6 +99,8 @@ func New(r *rand.Rand, hosts []string) *World {
 // outlives a world, and "unchanged servers" must hold for everything it may have cached
 var labelCounter int64
 
+func nextSerial() int64 { return atomic.AddInt64(&labelCounter, 1) }
+
 func (w *World) label(prefix string) string {
 	w.seq++
 	n := int(atomic.AddInt64(&labelCounter, 1))
@@ -172,7 +174,7 @@ func (w *World) edgeJSON(e *Edge, servingHost string, depth int) any {
 		}
 		m := w.nodeJSON(e.To, servingHost, depth+1)
 		if e.Lie == "forge" {
-			m["name"] = e.To.Label + "X forged by " + servingHost
+			m["name"] = e.To.Label + "X ZZFORGERY by " + servingHost
 			m["content"] = "<p>forged</p>"
 		}
 		return m
